@@ -1404,6 +1404,439 @@ fn thread_stream(rep: &mut Report, r: &mut Rng, rounds: u64) {
     rep.note(&format!("threads stream (oracle only, uncontrolled schedule): {rounds} rounds, {lost_update} with a refcount lost update, {collected} with an unreadable survivor"));
 }
 
+// ---------------------------------------------------------------- concurrent part: real threads under the deterministic scheduler
+
+#[derive(Clone, Debug)]
+enum TSpec {
+    Put(Vec<u8>),
+    /// delete the pre-existing artifact a<n>
+    Del(u32),
+    Gc,
+    FullGc,
+}
+
+#[derive(Clone, Debug)]
+struct ConcCase {
+    chunk: usize,
+    /// sequential prefix (Put / Delete / Abandon only)
+    pre: Vec<Op>,
+    threads: Vec<TSpec>,
+    /// call-level schedule to follow (thread index per `TensorStore` call); None = seeded random;
+    /// an empty script = round robin over the parked threads
+    script: Option<Vec<usize>>,
+    /// sequential suffix (Put / Delete / Gc / FullGc), run after the threads have finished
+    post: Vec<Op>,
+}
+
+fn conc_json(c: &ConcCase, sched: &[usize]) -> Value {
+    json!({"chunk_size": c.chunk, "pre": c.pre.iter().map(op_json).collect::<Vec<_>>(),
+        "threads": c.threads.iter().map(|t| match t {
+            TSpec::Put(d) => json!({"put": hex(d)}), TSpec::Del(a) => json!({"delete": a}), TSpec::Gc => json!("gc"), TSpec::FullGc => json!("full_gc") }).collect::<Vec<_>>(),
+        "schedule": sched, "post": c.post.iter().map(op_json).collect::<Vec<_>>()})
+}
+
+const T_CONC: u64 = 900; // logical stamp of chunks created by the threads
+const MC_CONC: u64 = 500; // the collector threads take records older than this
+
+/// one sequential op of the prefix / suffix on both sides; returns false on disagreement
+fn conc_seq_op(r: &mut Real, m: &mut Model, rep: &mut Report, stream: &str, t: u64, op: &Op, input: &dyn Fn() -> Value) -> bool {
+    let (line, imp): (String, String) = match op {
+        Op::Put(d) => {
+            let a = match r.rt.block_on(r.blob.put("f", d, PutOptions::default())) {
+                Ok(id) => {
+                    let ix = r.alpha(&id);
+                    r.expect.insert(ix, Some(d.clone()));
+                    format!("ok a{ix}")
+                }
+                Err(e) => err_class(&e).to_string(),
+            };
+            (format!("put {t} {}", hex(d)), a)
+        }
+        Op::Abandon(ps) => {
+            let mut w = r.rt.block_on(r.blob.writer("f", PutOptions::default())).unwrap();
+            for p in ps {
+                let _ = r.rt.block_on(w.write(p));
+            }
+            drop(w);
+            r.slack = true;
+            (format!("abandon {t} {}", pieces_txt(ps)), "ok".into())
+        }
+        Op::Delete(a) => {
+            let id = r.uuid_of(*a);
+            let x = match r.rt.block_on(r.blob.delete(&id)) {
+                Ok(()) => {
+                    r.expect.insert(*a as usize, None);
+                    "ok".to_string()
+                }
+                Err(e) => err_class(&e).to_string(),
+            };
+            (format!("delete a{a}"), x)
+        }
+        Op::Gc { back, age } => {
+            let thr = t.saturating_sub(*back);
+            let b = r.rt.block_on(BlobStore::new(r.ts.clone(), cfg(r.chunk, None).with_gc_min_age(min_age_for(thr)))).unwrap();
+            let s = r.rt.block_on(b.gc()).unwrap();
+            (format!("gc {} {}", thr + 1 + age, age), format!("ok {} {}", s.deleted, s.freed_bytes))
+        }
+        Op::FullGc => {
+            let x = match r.rt.block_on(r.blob.full_gc()) {
+                Ok(s) => format!("ok {} {}", s.deleted, s.freed_bytes),
+                Err(e) => err_class(&e).to_string(),
+            };
+            ("fullgc".into(), x)
+        }
+        _ => ("image".into(), r.image()),
+    };
+    let mut dummy = Report::new("");
+    r.restamp(t, &mut dummy, input);
+    let both = m.ask(&format!("! {line}"));
+    let (mo, mimg) = both.split_once('\t').map(|(a, b)| (a.to_string(), b.to_string())).unwrap_or((both.clone(), String::new()));
+    let a = rep.compare(&format!("{stream}.seq_answer"), || json!({"case": input(), "line": line}), &imp, &mo);
+    let b = rep.compare(&format!("{stream}.seq_image"), || json!({"case": input(), "line": line}), &r.image(), &mimg);
+    a && b
+}
+
+struct ConcOut {
+    sched: Vec<usize>,
+    model_line: String,
+    /// oracle failures (class, what)
+    failures: Vec<(String, String)>,
+    agreed: bool,
+}
+
+/// Run one concurrent case: sequential prefix, real threads under the scheduler (the yield trace is the
+/// call sequence), the same call-level schedule on the model (`calls`), sequential suffix; correspondence =
+/// trace + image; oracles = the property on the real outputs.
+fn run_conc(m: &mut Model, rep: &mut Report, stream: &str, case: &ConcCase, rng: &mut Rng) -> ConcOut {
+    let c = case.chunk;
+    let mut r = Real::new(c, None);
+    m.ask(&format!("reset {c} -"));
+    let mut agreed = true;
+    let sched_cell: Arc<Mutex<Vec<usize>>> = Arc::new(Mutex::new(Vec::new()));
+    let sc2 = sched_cell.clone();
+    let case2 = case.clone();
+    let input = move || conc_json(&case2, &sc2.lock().unwrap());
+    let mut t = 0u64;
+    for op in &case.pre {
+        t += 1;
+        agreed &= conc_seq_op(&mut r, m, rep, stream, t, op, &input);
+    }
+    // ---- thread specs
+    let base = r.ids.len();
+    let mut widx = 0usize;
+    let mut model_id: Vec<Option<usize>> = Vec::new(); // per thread: the artifact id a writer thread creates
+    for sp in &case.threads {
+        if let TSpec::Put(d) = sp {
+            model_id.push(Some(base + widx));
+            widx += 1;
+            for ch in d.chunks(c) {
+                r.known.entry(format!("{CHUNK_PREFIX}{}", compute_hash(ch))).or_insert_with(|| ch.to_vec());
+            }
+        } else {
+            model_id.push(None);
+        }
+    }
+    let results: Arc<Mutex<Vec<Option<Result<String, String>>>>> = Arc::new(Mutex::new(vec![None; case.threads.len()]));
+    let tasks: Vec<Box<dyn FnOnce() + Send>> = case
+        .threads
+        .iter()
+        .enumerate()
+        .map(|(i, sp)| {
+            let ts = r.ts.clone();
+            let sp = sp.clone();
+            let res = results.clone();
+            let del_id = if let TSpec::Del(a) = &sp { r.uuid_of(*a) } else { String::new() };
+            Box::new(move || {
+                let rt = tokio::runtime::Builder::new_current_thread().enable_all().build().unwrap();
+                let conf = cfg(c, None).with_gc_min_age(Duration::from_secs(3600));
+                let b = rt.block_on(BlobStore::new(ts, conf)).unwrap();
+                let out: Result<String, String> = match &sp {
+                    TSpec::Put(d) => rt.block_on(b.put("w", d, PutOptions::default())).map_err(|e| err_class(&e).to_string()),
+                    TSpec::Del(_) => rt.block_on(b.delete(&del_id)).map(|_| "ok".to_string()).map_err(|e| err_class(&e).to_string()),
+                    TSpec::Gc => rt.block_on(b.gc()).map(|s| format!("{} {}", s.deleted, s.freed_bytes)).map_err(|e| err_class(&e).to_string()),
+                    TSpec::FullGc => rt.block_on(b.full_gc()).map(|s| format!("{} {}", s.deleted, s.freed_bytes)).map_err(|e| err_class(&e).to_string()),
+                };
+                res.lock().unwrap()[i] = Some(out);
+            }) as Box<dyn FnOnce() + Send>
+        })
+        .collect();
+    // ---- the controlled run
+    let known = r.known.clone();
+    let ids = r.ids.clone();
+    let mut new_meta: HashMap<String, usize> = HashMap::new();
+    let mut trace: Vec<(usize, String)> = Vec::new();
+    let mut pos = 0usize;
+    let mut deviated = false;
+    let mut autos = 0u64;
+    let _steps = run_threads(tasks, |_n, parked| {
+        if let Some(p) = parked.iter().position(|x| x.1 == "thread.start") {
+            return p;
+        }
+        // secondary-index keys are outside the model (no operation of the property reads them): never a scheduling point
+        if let Some(p) = parked.iter().position(|x| x.2.starts_with("_blob:idx:")) {
+            autos += 1;
+            return p;
+        }
+        let pick = match &case.script {
+            Some(sc) if sc.is_empty() => {
+                // round robin: the parked thread with the smallest index above the last one granted (cyclic)
+                let last = trace.last().map(|x| x.0 as i64).unwrap_or(-1);
+                parked.iter().position(|x| x.0 as i64 > last).unwrap_or(0)
+            }
+            Some(sc) if pos < sc.len() => {
+                let want = sc[pos];
+                parked.iter().position(|x| x.0 == want).unwrap_or_else(|| {
+                    deviated = true;
+                    0
+                })
+            }
+            Some(_) => 0,
+            None => rng.below(parked.len() as u64) as usize,
+        };
+        pos += 1;
+        let (th, site, key) = &parked[pick];
+        let label = if *site == "store.scan" {
+            if key.starts_with(CHUNK_PREFIX) { "sc".to_string() } else if key.starts_with(META_PREFIX) { "sm".to_string() } else { format!("scan?{key}") }
+        } else if let Some(rest) = key.strip_prefix(META_PREFIX) {
+            if *site == "store.put" {
+                if let Some(idm) = model_id[*th] {
+                    new_meta.insert(rest.to_string(), idm);
+                }
+            }
+            let a = ids.iter().position(|x| x == rest).or_else(|| new_meta.get(rest).copied());
+            let kind = match *site { "store.get" => "gm", "store.put" => "pm", "store.delete" => "dm", _ => "?m" };
+            format!("{kind}:{}", a.map(|x| x.to_string()).unwrap_or_else(|| "?".into()))
+        } else {
+            let kind = match *site { "store.exists" => "e", "store.get" => "g", "store.put" => "p", "store.delete" => "d", _ => "?" };
+            format!("{kind}:{}", known.get(key).map(|d| hex(d)).unwrap_or_else(|| format!("?{key}")))
+        };
+        sched_cell.lock().unwrap().push(*th);
+        trace.push((*th, label));
+        pick
+    });
+    let sched: Vec<usize> = sched_cell.lock().unwrap().clone();
+    if deviated {
+        rep.disagree(&format!("{stream}.script"), input(), "the scripted thread was not parked at its turn", "script");
+        agreed = false;
+    }
+    rep.hit_n("conc.auto_granted_index_calls", autos);
+    // ---- results, new artifact ids in writer order
+    let results = results.lock().unwrap().clone();
+    let mut new_expect: Vec<(usize, Vec<u8>)> = Vec::new();
+    for (i, sp) in case.threads.iter().enumerate() {
+        if let TSpec::Put(d) = sp {
+            match &results[i] {
+                Some(Ok(uuid)) => {
+                    r.ids.push(uuid.clone());
+                    new_expect.push((r.ids.len() - 1, d.clone()));
+                }
+                other => {
+                    r.ids.push(format!("failed-writer-{i}"));
+                    rep.disagree(&format!("{stream}.result"), input(), &format!("{other:?}"), "ok");
+                    agreed = false;
+                }
+            }
+        }
+    }
+    // ---- the same schedule on the model; scan orders are what the real scans produced
+    let keys_of = |th: usize, kind: &str| -> String {
+        let v: Vec<String> = trace.iter().filter(|(t, l)| *t == th && l.starts_with(kind)).map(|(_, l)| l[kind.len()..].to_string()).collect();
+        if v.is_empty() { ".".to_string() } else { v.join(",") }
+    };
+    let specs: Vec<String> = case
+        .threads
+        .iter()
+        .enumerate()
+        .map(|(i, sp)| match sp {
+            TSpec::Put(d) => format!("wd:{}:{}", model_id[i].unwrap(), hex(d)),
+            TSpec::Del(a) => format!("d:{a}"),
+            TSpec::Gc => format!("g:{MC_CONC}:{}", keys_of(i, "g:")),
+            TSpec::FullGc => format!("f:{}:{}", keys_of(i, "gm:"), keys_of(i, "g:")),
+        })
+        .collect();
+    let sched_txt = if sched.is_empty() { "-".to_string() } else { sched.iter().map(|x| x.to_string()).collect::<Vec<_>>().join(",") };
+    let model_line = format!("calls {T_CONC} {} {}", specs.join(";"), sched_txt);
+    let mo = m.ask(&model_line);
+    let mut dummy = Report::new("");
+    r.restamp(T_CONC, &mut dummy, &input);
+    let intact = r.ts.scan(META_PREFIX).iter().all(|mk| check_chunks_exist(&r.ts, mk.trim_start_matches(META_PREFIX)).map(|l| l.is_empty()).unwrap_or(false));
+    let n = case.threads.len();
+    let tr_txt = if trace.is_empty() { ".".to_string() } else { trace.iter().map(|x| x.1.clone()).collect::<Vec<_>>().join(",") };
+    let imp = format!("ok {n}/{n} {} {tr_txt}", if intact { "intact" } else { "broken" });
+    agreed &= rep.compare(&format!("{stream}.trace"), || json!({"case": input(), "line": model_line}), &imp, &mo);
+    agreed &= rep.compare(&format!("{stream}.image"), || json!({"case": input(), "line": model_line}), &r.image(), &m.ask("image"));
+    for (th, l) in &trace {
+        rep.hit(&format!("conc.call.{}.{}", match &case.threads[*th] { TSpec::Put(_) => "writer", TSpec::Del(_) => "deleter", TSpec::Gc => "gc", TSpec::FullGc => "full_gc" }, l.split(':').next().unwrap_or("?")));
+    }
+    // ---- oracles: the property on the real outputs
+    let mut failures: Vec<(String, String)> = Vec::new();
+    let targets: BTreeSet<usize> = case.threads.iter().filter_map(|t| if let TSpec::Del(a) = t { Some(*a as usize) } else { None }).collect();
+    let has_full = case.threads.iter().any(|t| matches!(t, TSpec::FullGc));
+    let has_gc = case.threads.iter().any(|t| matches!(t, TSpec::Gc));
+    let site = if has_full { "tensor_blob.full_gc/live_chunk_collected" } else if has_gc { "tensor_blob.gc/live_chunk_collected" } else { "tensor_blob.conc/live_chunk_lost_without_collector" };
+    for (ix, d) in new_expect {
+        r.expect.insert(ix, Some(d));
+    }
+    for ix in &targets {
+        r.expect.insert(*ix, None);
+    }
+    let survivors_ok = |r: &Real| -> bool {
+        r.expect.iter().all(|(ix, e)| match e {
+            Some(bytes) => r.rt.block_on(r.blob.get(&r.ids[*ix])).ok().as_ref() == Some(bytes),
+            None => true,
+        })
+    };
+    if !survivors_ok(&r) {
+        failures.push((site.to_string(), "an artifact that exists and that no thread deleted cannot be read back after the interleaving".to_string()));
+    }
+    let low_refs = |r: &Real| -> bool {
+        occurrences(&r.ts).iter().any(|(k, o)| r.ts.get(k).ok().and_then(|t| t_int(&t, "_refs")).unwrap_or(0) < *o)
+    };
+    if low_refs(&r) {
+        failures.push(("tensor_blob.refs/lost_update".to_string(), "after the interleaving a chunk's refcount is below the number of times existing artifacts list it".to_string()));
+    }
+    // ---- sequential suffix, then every surviving artifact again
+    let mut t2 = T_CONC;
+    for op in &case.post {
+        t2 += 1;
+        agreed &= conc_seq_op(&mut r, m, rep, stream, t2, op, &input);
+    }
+    if !case.post.is_empty() && !survivors_ok(&r) {
+        let post_site = if case.post.iter().any(|o| matches!(o, Op::FullGc)) { "tensor_blob.full_gc/live_chunk_collected" } else { "tensor_blob.gc/live_chunk_collected" };
+        failures.push((post_site.to_string(), "after the interleaving and a later sequential collection an artifact that was never deleted cannot be read back".to_string()));
+    }
+    ConcOut { sched, model_line, failures, agreed }
+}
+
+fn report_conc(rep: &mut Report, stream: &str, name: Option<&str>, case: &ConcCase, out: &ConcOut) {
+    let dup_targets = {
+        let v: Vec<u32> = case.threads.iter().filter_map(|t| if let TSpec::Del(a) = t { Some(*a) } else { None }).collect();
+        v.iter().collect::<BTreeSet<_>>().len() < v.len()
+    };
+    for (class, what) in &out.failures {
+        if dup_targets {
+            // two deleters of the same artifact: candidate finding, not yet listed — recorded, not judged
+            rep.observe(json!({"candidate_class": "tensor_blob.delete/double_decrement", "oracle_class": class, "what": what,
+                "input": conc_json(case, &out.sched), "lean": "concurrent_double_delete_witness"}));
+            rep.hit("conc.candidate.double_decrement");
+        } else {
+            rep.violation(class, what, conc_json(case, &out.sched));
+        }
+    }
+    rep.case(stream, Some(&out.model_line));
+    if let Some(n) = name {
+        let verdict = if !out.agreed { "disagree".to_string() } else if out.failures.is_empty() { "pass".to_string() } else { out.failures.iter().map(|f| f.0.clone()).collect::<Vec<_>>().join("+") };
+        rep.hit(&format!("conc.directed.{n}.{verdict}"));
+    }
+}
+
+/// the Lean witness interleavings (Props: `calls_*_witness`) replayed on the real store, plus safe ones
+fn conc_directed(m: &mut Model, rep: &mut Report, rng: &mut Rng) {
+    let gc_all = Op::Gc { back: 0, age: 0 };
+    let cases: Vec<(&str, ConcCase)> = vec![
+        // both writers see `exists == false` and both put refs = 1; one artifact is deleted; gc takes the other's chunk
+        ("lost-update-then-gc", ConcCase { chunk: 1, pre: vec![], threads: vec![TSpec::Put(vec![1]), TSpec::Put(vec![1])], script: Some(vec![0, 1, 0, 1, 0, 1]), post: vec![Op::Delete(0), gc_all.clone()] }),
+        // full_gc scans between the writer's chunk put and its metadata put
+        ("full-gc-vs-writer", ConcCase { chunk: 2, pre: vec![], threads: vec![TSpec::Put(vec![1]), TSpec::FullGc], script: Some(vec![0, 0, 1, 1, 1, 1, 0]), post: vec![] }),
+        // gc_cycle reads refs == 0 on an old orphan, the writer re-references it, gc deletes it
+        ("gc-vs-writer-on-orphan", ConcCase { chunk: 1, pre: vec![Op::Put(vec![1]), Op::Delete(0)], threads: vec![TSpec::Put(vec![1]), TSpec::Gc], script: Some(vec![1, 1, 0, 0, 0, 1, 0]), post: vec![] }),
+        // two deleters of the same artifact both decrement: the chunk it shares with a1 drops to 0 references
+        ("double-delete-then-gc", ConcCase { chunk: 1, pre: vec![Op::Put(vec![1]), Op::Put(vec![1])], threads: vec![TSpec::Del(0), TSpec::Del(0)], script: Some(vec![0, 1, 0, 0, 1, 1, 0, 1]), post: vec![gc_all.clone()] }),
+        // safe: deleters of different artifacts with both collectors (Props: concurrent_deleters_collectors_safe)
+        ("deleters-and-collectors", ConcCase { chunk: 1, pre: vec![Op::Put(vec![1, 2]), Op::Put(vec![2, 3]), Op::Put(vec![3, 1]), Op::Abandon(vec![vec![9]])],
+            threads: vec![TSpec::Del(0), TSpec::Del(1), TSpec::Gc, TSpec::FullGc], script: Some(vec![]), post: vec![gc_all.clone(), Op::FullGc] }),
+        // safe: writers and a deleter of overlapping content, no collector running (Props: concurrent_no_collector_partial)
+        ("writers-and-deleter", ConcCase { chunk: 2, pre: vec![Op::Put(vec![1, 2, 3])], threads: vec![TSpec::Put(vec![1, 2, 3, 4]), TSpec::Put(vec![1, 2]), TSpec::Del(0)], script: Some(vec![]), post: vec![] }),
+    ];
+    for (name, case) in cases {
+        let out = run_conc(m, rep, "conc.directed", &case, rng);
+        report_conc(rep, "conc.directed", Some(name), &case, &out);
+        if rep.samples.len() < 14 {
+            rep.sample(json!({"stream": "conc.directed", "name": name, "model_line": out.model_line}));
+        }
+    }
+}
+
+fn conc_stream(m: &mut Model, rep: &mut Report, r: &mut Rng, rounds: u64) {
+    for _ in 0..rounds {
+        let c = *r.pick(&[1usize, 1, 2, 2, 3]);
+        let p = pool(r, c);
+        let small = |r: &mut Rng| -> Vec<u8> {
+            let nb = r.below(3) as usize;
+            let mut d = Vec::new();
+            let rep_block = r.chance(1, 3);
+            let b0 = r.below(p.blocks.len() as u64) as usize;
+            for _ in 0..nb {
+                let b = if rep_block { b0 } else { r.below(p.blocks.len() as u64) as usize };
+                d.extend_from_slice(&p.blocks[b]);
+            }
+            if nb == 0 || r.chance(1, 3) {
+                d.extend_from_slice(&p.tails[r.below(p.tails.len() as u64) as usize]);
+            }
+            d
+        };
+        let mut pre = Vec::new();
+        let mut alive: Vec<u32> = Vec::new();
+        let mut made = 0u32;
+        for _ in 0..r.below(5) {
+            match r.below(10) {
+                0..=6 => {
+                    pre.push(Op::Put(small(r)));
+                    alive.push(made);
+                    made += 1;
+                }
+                7 | 8 if !alive.is_empty() => {
+                    let i = r.below(alive.len() as u64) as usize;
+                    pre.push(Op::Delete(alive.remove(i)));
+                }
+                _ => pre.push(Op::Abandon(vec![small(r)])),
+            }
+        }
+        let mut threads = Vec::new();
+        let nd = if alive.is_empty() { 0 } else { r.below(3) as usize };
+        let nw = if nd == 0 { 1 + r.below(3) as usize } else { r.below(3) as usize };
+        for _ in 0..nw {
+            threads.push(TSpec::Put(small(r)));
+        }
+        let mut pool_t = alive.clone();
+        for _ in 0..nd {
+            if pool_t.is_empty() {
+                break;
+            }
+            let i = r.below(pool_t.len() as u64) as usize;
+            let a = pool_t[i];
+            // now and then two deleters of the same artifact
+            if !r.chance(1, 5) {
+                pool_t.remove(i);
+            }
+            threads.push(TSpec::Del(a));
+        }
+        match r.below(10) {
+            0..=2 => threads.push(TSpec::Gc),
+            3..=5 => threads.push(TSpec::FullGc),
+            6 => {
+                threads.push(TSpec::Gc);
+                threads.push(TSpec::FullGc);
+            }
+            _ => {}
+        }
+        if threads.len() < 2 {
+            threads.push(TSpec::Put(small(r)));
+        }
+        r.shuffle(&mut threads);
+        let post = if r.chance(1, 2) { vec![Op::Gc { back: 0, age: 0 }] } else if r.chance(1, 2) { vec![Op::FullGc] } else { vec![] };
+        let case = ConcCase { chunk: c, pre, threads, script: None, post };
+        let out = run_conc(m, rep, "conc", &case, r);
+        report_conc(rep, "conc", None, &case, &out);
+        let kinds: BTreeSet<&str> = case.threads.iter().map(|t| match t { TSpec::Put(_) => "w", TSpec::Del(_) => "d", TSpec::Gc => "g", TSpec::FullGc => "f" }).collect();
+        rep.hit(&format!("conc.mix.{}.n{}", kinds.into_iter().collect::<Vec<_>>().join(""), case.threads.len()));
+        rep.hit(&format!("conc.sched_len.{}", match out.sched.len() { 0..=9 => "0-9", 10..=19 => "10-19", 20..=39 => "20-39", _ => "40+" }));
+        if rep.samples.len() < 14 && r.chance(1, 60) {
+            rep.sample(json!({"stream": "conc", "model_line": out.model_line}));
+        }
+    }
+}
+
 fn main() {
     let args = parse_args();
     let mut rep = Report::new(
@@ -1432,6 +1865,9 @@ fn main() {
     lap("api");
     thread_stream(&mut rep, &mut root.fork("threads"), 300 * scale);
     lap("threads");
+    conc_directed(&mut m, &mut rep, &mut root.fork("conc-directed"));
+    conc_stream(&mut m, &mut rep, &mut root.fork("conc"), 250 * scale);
+    lap("conc");
 
     rep.note("SHA-256 is opaque: the model is keyed by the chunk bytes themselves; the harness checks every new chunk record is keyed by compute_hash(data)");
     rep.note("`_created` stamps are rewritten to logical ticks by the harness (no clock hook); the strict `<` of gc_cycle is therefore exercised in ticks, not in wall-clock seconds");
